@@ -251,6 +251,9 @@ def gen_case(rng, pid, tier):
             elif op[0] == 'reload':
                 op[2] = [x * big for x in op[2]]
     case = {'buckets': buckets, 'servers': servers, 'allocs': allocs, 'ops': ops}
+    import random as _random2
+    if _random2.Random(repr(rng.getstate()[1][:4]) + 'lvl').random() < 0.15:
+        case['rackname'] = 'Rack'       # (side stream) level names are taken verbatim from the bucket records
     if pid == 'C02':
         # probe mode: drive to a fixed point, then one probe and one cycle (see run_impl)
         aff = rng.randrange(4)
@@ -291,6 +294,8 @@ class World:
     def __init__(self, scheduler, case):
         self.sch = scheduler
         self.now = 0
+        self.rackname = case.get('rackname', 'rack')
+        self.spec_limits = {}
         self.cell = scheduler.Cell('cell')
         self.nodes = {ROOT: self.cell}        # bucket id -> Bucket
         self.node_id = {id(self.cell): ROOT}
@@ -535,7 +540,9 @@ def monitors(world, pid, snap, queues, run, hist_tags):
                 byaff[aff_of(a) if aff_of is not None else a.affinity.name].append(a)
             for k, l in byaff.items():
                 lvl = getattr(world, 'level_of', lambda n_: n_.level)(node)
-                lim = min(dict(a.affinity.limits).get(lvl, float('inf')) for a in l)
+                decl = getattr(world, 'spec_limits', None)
+                lim = min((decl[a.name] if decl is not None and a.name in decl else dict(a.affinity.limits)).get(
+                    lvl, float('inf')) for a in l)
                 if len(l) > lim:
                     H('limit-exceeded', 'cycle', (node.name, lvl, k, len(l), lim))
             return cnt
@@ -730,12 +737,17 @@ def _mk_app(w, op):
     else:
         w.stats_tied = getattr(w, 'stats_tied', 0) + 1
     w.last_alid = alid
+    rackname = getattr(w, 'rackname', 'rack')
+    declared = {(rackname if k == 'rack' else k): v for k, v in limits.items()}
+    if not hasattr(w, 'spec_limits'):
+        w.spec_limits = {}
     app = sch.Application(aname(aid, aff), prio, demand, str(aff),
-                          affinity_limits={k: v for k, v in limits.items()} or None,
+                          affinity_limits=dict(declared) or None,
                           data_retention_timeout=ret, lease=lease,
                           identity_group=('g%d' % grp) if grp else None,
                           traits=traits, schedule_once=bool(once))
     app.global_order = w.now_order       # deterministic FIFO tie-break
+    w.spec_limits[app.name] = declared          # the monitor's record of what the instance declares
     w.spec_lease[app.name] = lease
     w.spec_bl[app.name] = False
     return app
@@ -832,7 +844,8 @@ def _run(case, pid, run, w, stats):
     run.op('init %d %d' % (ROOT, LEVELS['cell']), 'ok')
     for bid, pid_, level in case['buckets']:
         def f(bid=bid, pid_=pid_, level=level):
-            b = sch.Bucket('b%d' % bid, level=LEVEL_NAMES[level])
+            b = sch.Bucket('b%d' % bid, level=(case.get('rackname', 'rack') if level == LEVELS['rack']
+                                               else LEVEL_NAMES[level]))
             w.nodes[bid] = b
             w.nodes[pid_].add_node(b)
         _emit(run, w, 'bucket %d %d %d' % (bid, pid_, level), f)
